@@ -233,7 +233,8 @@ def run(check, ctx):
     check_decisive_test(check, repo, P15, "PKCS115_SigScheme.verify",
                         ["param:signature", "param:msg_hash"], "D|pkcs1_15.verify.final",
                         "every normal exit follows membership of the whole "
-                        "recovered EM in the set of expected encodings")
+                        "recovered EM in the set of expected encodings",
+                        whole_names=("em1", "possible_em1"))
     check.floor("D", 8)
     from . import c04_extra
     c04_extra.run(check, ctx)
